@@ -132,7 +132,73 @@ def r1_r2_reshape(ctx):
               "Triple->Triple, Single->Triple, Triple->Single (and Single->Single unchanged)")
 
 
+def flatten_e6(ctx, fn):
+    """the facts of R14.2 / R14.3 about Tensor::flatten on its E6 effect summary (any spelling): on every path where self.data is Triple the stored
+    vector is filled by an in-order, unconditional walk channel -> row -> element of the matched 3-D data, and the recorded shape is its length
+    (a struct literal with `Shape::Single(v.len())` or the constructor `Tensor::single(v)`, which R14.3 shows to record the length)
+    -> (row-major ok, shape ok, description of the shape)"""
+    from .. import e6
+    c = ctx.crate
+    E_ = e6.Exec(c, fn)
+    SD = ("field", ("p", "self"), "data")
+    okE = okS = None
+    shp_d = "?"
+    for p_ in E_.run_fn():
+        if p_.exit is not None and p_.exit[0] != "return":
+            continue
+        if e6.variant_of(p_).get(SD) != "tensor::Data::Triple":
+            continue
+        val_ = p_.val if p_.exit is None else p_.exit[1]
+        val_ = e6.strip_upd(val_)
+        inner = shp = None
+        sg = e6.is_call(val_, "single", 1)
+        if sg is not None and isinstance(val_, tuple) and val_[1] == "tensor::Tensor::single":
+            inner, shape_ok_by_ctor = sg[0], True
+        else:
+            shape_ok_by_ctor = False
+            dv = dict(val_[2]).get("data") if isinstance(val_, tuple) and val_ and val_[0] == "struct" else None
+            inner = dv[2][0] if isinstance(dv, tuple) and dv and dv[0] in ("var", "call") and len(dv[2]) == 1 else None
+            shp = dict(val_[2]).get("shape") if isinstance(val_, tuple) and val_ and val_[0] == "struct" else None
+        rm = e6.row_major_fill(E_, inner) if inner is not None else None
+        g1 = rm is not None and rm[0] == ("payload", SD, "tensor::Data::Triple", 0) and rm[1] == 3
+        if shape_ok_by_ctor:
+            g2 = True
+            shp_d = "Tensor::single(..)"
+        else:
+            sa = shp[2][0] if isinstance(shp, tuple) and shp and shp[0] in ("var", "call") and len(shp[2]) == 1 else None
+            g2 = sa is not None and e6.is_call(sa, "len", 1) is not None and e6.is_call(sa, "len", 1)[0] == inner
+            shp_d = e6.show(shp, 2) if shp else "?"
+        okE = g1 if okE is None else (okE and g1)
+        okS = g2 if okS is None else (okS and g2)
+    return bool(okE), bool(okS), shp_d
+
+
 def r2_flatten(ctx):
+    c = ctx.crate
+    fn = ctx.fn(T + "flatten")
+    sub = type(ctx)(ctx.prop, ctx.facts)
+    sub.guard("R14.2", "flatten-shape-form", _r2_flatten_shape, sub)
+    mine = [o for o in sub.obligations if o["instance"] in ("flatten:row-major", "flatten:shape-is-length")]
+    if len(mine) == 2 and all(o["status"] == "ok" for o in mine):
+        ctx.obligations.extend(mine)
+    else:
+        try:
+            okE, okS, shp_d = flatten_e6(ctx, fn)
+        except Exception as e:  # noqa
+            okE, okS, shp_d = False, False, "%s: %s" % (type(e).__name__, e)
+        if okE and okS:
+            ctx.ok("R14.2", "flatten:row-major", "in-order walk channel -> row -> element (effect summary)", c.loc(fn))
+            ctx.ok("R14.3", "flatten:shape-is-length", "shape = length of the flattened vector (effect summary): %s" % shp_d[:60], c.loc(fn))
+        else:
+            ctx.obligations.extend(o for o in sub.obligations if o["instance"].startswith("flatten"))
+            if not any(o["instance"] == "flatten:row-major" for o in sub.obligations):
+                ctx.check("R14.2", "flatten:row-major", okE, "flatten-order", c.loc(fn), "for channel in data { for row in channel { flattened.extend(row) } }")
+            if not any(o["instance"] == "flatten:shape-is-length" for o in sub.obligations):
+                ctx.check("R14.3", "flatten:shape-is-length", okS, "flatten-shape:" + short(shp_d, 60), c.loc(fn), "shape = Single(len of the flattened vector)")
+    _r2_get_flat(ctx)
+
+
+def _r2_flatten_shape(ctx):
     c = ctx.crate
     fn = ctx.fn(T + "flatten")
     m = [x for x in walk(fn["body"]) if x.get("k") == "match"][0]
@@ -205,6 +271,10 @@ def r2_flatten(ctx):
                     ctx.ok("R14.2", "flatten:row-major", "in-order walk channel -> row -> element (effect summary)", c.loc(fn, arm["body"]))
                 elif len(fors) != 2:
                     ctx.bad("R14.2", "flatten:row-major", "flatten-loops:%d" % len(fors), c.loc(fn, arm["body"]), "")
+
+
+def _r2_get_flat(ctx):
+    c = ctx.crate
     from ..extract import extract, Unrecognised
     from .. import arms
     fn = ctx.fn(T + "get_flat")
